@@ -117,3 +117,14 @@ Theorem C04_source_apply_middleware : forall (ms h0 : list val),
   = [VL (ms ++ h0)].
 Proof. exact ApplyMwSrc.C04_source_apply_middleware. Qed.
 Print Assumptions C04_source_apply_middleware.
+
+(* ---- Pre before routing, at the source: the closure Echo.ServeHTTP hands to the Pre chain (Gen/Src_servehttp.v) performs the
+   route lookup itself, then takes the route's handler, then calls it - so the lookup happens INSIDE the Pre chain, on what the
+   Pre middleware made of the request (ServeHTTP's own part is C05_source_serve_http) *)
+From Echo Require Import Base.GoLite Gen.Src_servehttp Http.ServeHTTPSrc.
+Theorem C04_source_routed_closure : forall sym ctx hv,
+  GoLite.events (fst (GoLite.run sym src_serve_http_routed_results src_serve_http_routed
+                 {| GoLite.locals := [("c"%string, ctx)]; GoLite.fields := []; GoLite.events := []; GoLite.inputs := [[hv]] |})) =
+  [("e.findRouter(r.Host).Find"%string, [sym "r.Method"%string; sym "GetPath(r)"%string; ctx]); ("c.Handler"%string, []); ("h"%string, [ctx])].
+Proof. exact ServeHTTPSrc.C04_source_routed_closure. Qed.
+Print Assumptions C04_source_routed_closure.
